@@ -153,7 +153,7 @@ pub fn encode(c: &Case) -> String {
     s
 }
 
-fn show_rows(rows: &[String]) -> String { rows.iter().map(|r| r.chars().map(|c| (c as u32).to_string()).collect::<Vec<_>>().join(".")).collect::<Vec<_>>().join("|") }
+fn show_rows(rows: &[String]) -> String { rows.iter().map(|r| r.chars().filter(|c| unicode_width::UnicodeWidthChar::width(*c).unwrap_or(0) > 0).map(|c| (c as u32).to_string()).collect::<Vec<_>>().join(".")).collect::<Vec<_>>().join("|") }
 fn wrap(line: &str, w: usize) -> Vec<String> { crate::bar::wrap(line, w) }
 
 struct BarInfo { pb: Option<ProgressBar>, tpl: usize, on_finish: Fin, removed: bool, hidden: bool, finished_visible_render: Option<Vec<String>>, ever_drawn: bool, acceptable: Vec<Vec<String>> }
